@@ -23,11 +23,13 @@ theorem iRange_some {v : SVal} {x z : Int} (h : v.iRange = some (x, z)) :
   · cases h
 
 /-- what a value (not a range) offers to a range to its right: a scalar or a repeated scalar offers
-    its 'i' integer, if it is one; `none`: an array or a repeated array (no range may follow in the
-    proved class) -/
+    its 'i' integer, if it is one; an array or a repeated array offers nothing (the range behind it
+    counts in steps of ±1); `none`: no range may follow in the proved class -/
 def SVal.offer : SVal → Option (Option Int)
   | .val t => some (nbInt t.cell)
   | .rep _ (.val t) => some (nbInt t.cell)
+  | .arr _ _ => some none
+  | .rep _ (.arr _ _) => some none
   | _ => none
 
 /-- the value to the left in the sense of the specification (`SVal.denote1`) -/
@@ -137,9 +139,19 @@ theorem prov_of_offer (bl : List Nat → Blank) (v : SVal) (hv : v.proved bl) (n
       subst ho
       have := Prov.rep n _ _ h1 h2 (valOK_tok (sub bl 0) t hx.1 hx.2)
       simpa [SVal.text, SVal.pcells, repText, fmtDec_nat] using this
+    | arr es o =>
+      simp only [SVal.offer, Option.some.injEq] at ho
+      subst ho
+      have := Prov.repArr n _ _ _ _ h1 h2 (by simpa [SVal.pcells] using SVal.proved.arg11 (sub bl 0) (.arr es o) hx)
+        (by simp [SVal.text])
+      simpa [SVal.text, SVal.pcells, repText, fmtDec_nat] using this
     | _ => simp [SVal.offer] at ho
   | range _ _ => simp [SVal.offer] at ho
-  | arr _ _ => simp [SVal.offer] at ho
+  | arr es o =>
+    simp only [SVal.offer, Option.some.injEq] at ho
+    subst ho
+    have := Prov.arr _ _ _ _ (by simpa [SVal.pcells] using SVal.proved.arg11 bl (.arr es o) hv) (by simp [SVal.text])
+    simpa [SVal.pcells] using this
 
 /-- the relation between the context of `LayR` and what the value to the left offers -/
 def CtxRel (c : Ctx) (o : Option (Option Int)) : Prop :=
@@ -204,13 +216,13 @@ theorem layR_ranged (L : Layout) (hsp : ∀ i, L.sep i = [] ∨ startsWs (L.sep 
         cases ho : v.offer with
         | none =>
           have hrec := ih (i + 1) .any none (by simp) trivial (by rw [ho] at hrest; exact hrest)
-          have := LayR.consA c _ _ (fixSep (L.sep i)) _ _ harg (noDelta_pcells v) hs hrec
+          have := LayR.consA c _ _ (fixSep (L.sep i)) _ _ harg (noDelta_pcells v).tailKeep hs hrec
           simpa [valuesText, e, List.append_assoc] using this
         | some nb =>
           have hp := prov_of_offer _ v hx nb ho
           have hrec := ih (i + 1) (.after (v.text (sub L.blank i)) (fixSep (L.sep i)) v.pcells nb) (some nb) (by simp)
             ⟨by simp, rfl⟩ (by rw [ho] at hrest; exact hrest)
-          have := LayR.consP c _ _ nb (fixSep (L.sep i)) _ _ harg (noDelta_pcells v) hp hs hrec
+          have := LayR.consP c _ _ nb (fixSep (L.sep i)) _ _ harg (noDelta_pcells v).tailKeep hp hs hrec
           simpa [valuesText, e, List.append_assoc] using this
 
 
@@ -343,7 +355,9 @@ theorem denoteElems_ranged (L : Layout) : ∀ (s : Sentence) (i : Nat) (o : Opti
         | rep n y =>
           cases y with
           | val t => simp only [SVal.offer, Option.some.injEq] at h; simp [SVal.leftCell, h]
+          | arr _ _ => simp only [SVal.offer, Option.some.injEq] at h; simp [SVal.leftCell, h]
           | _ => simp [SVal.offer] at h
+        | arr _ _ => simp only [SVal.offer, Option.some.injEq] at h; simp [SVal.leftCell, h]
         | _ => simp [SVal.offer] at h
       have hrec := ih (i + 1) v.offer v.leftCell hrest hrel'
       cases hd : denoteElems false v.leftCell r with
